@@ -29,7 +29,9 @@ PairInv == RoundTrip(text) /\ EncAlgoLemma /\ EncShape(text) /\ RoundTrip(<<text
 
 \* emission
 EncVecInit == text \in { <<a>> : a \in 0..255 } /\ pos = 0 /\ out = <<>> /\ res = "encvec"
-EncVecInv == PrintT(ToJson([k |-> "penc", a |-> text[1], e1 |-> Enc(text),
+EncVecInv == /\ (text[1] = 0 => PrintT(ToJson([k |-> "punres", set |-> Unreserved])))
+             /\ EncAcceptable(text, Enc(text))
+             /\ PrintT(ToJson([k |-> "penc", a |-> text[1], e1 |-> Enc(text),
                             e2 |-> [b \in 1..256 |-> Enc(<<text[1], b - 1>>)]]))
 DecVecInit == text \in Texts /\ pos = 0 /\ out = <<>> /\ res = "decvec"
 DecVecInv == PrintT(ToJson([k |-> "pdec", t |-> text, exp |-> Dec(text), plus |-> AlgoDec(text, {"PercentPlusHex"})]))
